@@ -17,6 +17,33 @@ def sh(cmd, **kw):
     return subprocess.run(cmd, shell=True, stdout=subprocess.PIPE, stderr=subprocess.STDOUT, text=True, **kw)
 
 
+def finish(seed_dir, name, meta, result, tier, skip_confirm):
+    out = os.path.join(VERIF, 'seeded', name)
+    os.makedirs(out, exist_ok=True)
+    for f in os.listdir(seed_dir):
+        if os.path.isfile(os.path.join(seed_dir, f)) and not f.startswith('demo_bin') and os.path.getsize(os.path.join(seed_dir, f)) < 200000 and not os.access(os.path.join(seed_dir, f), os.X_OK) or f == 'run.sh':
+            shutil.copy(os.path.join(seed_dir, f), os.path.join(out, f))
+    prev = {}
+    if os.path.exists(os.path.join(out, 'meta.json')):
+        try:
+            prev = json.load(open(os.path.join(out, 'meta.json')))
+        except Exception:
+            prev = {}
+    if skip_confirm and prev.get('confirmed_by_me'):
+        result['confirmed'] = prev['confirmed_by_me']
+    if prev.get('checks_with_patch_applied'):
+        hist = prev.get('earlier_runs', [])
+        hist.append(prev['checks_with_patch_applied'])
+        meta['earlier_runs'] = hist
+    meta_out = dict(meta)
+    meta_out.update({'breaks_property': meta.get('property'), 'needs_to_manifest': meta.get('needs'),
+                     'what_i_ran': 'lib/seedtest.py: scratch worktree confirmation + ./check <props> --tier %s with the patch applied to /repo (undone afterwards)' % tier,
+                     'confirmed_by_me': result['confirmed'], 'checks_with_patch_applied': result['checks']})
+    json.dump(meta_out, open(os.path.join(out, 'meta.json'), 'w'), indent=1)
+    return 0
+
+
+
 def main():
     seed_dir, name, props = sys.argv[1], sys.argv[2], sys.argv[3].split(',')
     tier = 'quick'
@@ -49,6 +76,26 @@ def main():
         finally:
             sh('git -C /repo worktree remove --force %s' % wt)
     print(json.dumps(result['confirmed'], indent=1))
+    if '--worktree' in sys.argv:
+        # same thing on a scratch worktree of /repo's HEAD (PARMCB_REPO points the checks at it); /repo itself stays untouched
+        wt2 = '/tmp/wt_check_' + name
+        sh('git -C /repo worktree remove --force %s' % wt2)
+        sh('git -C /repo worktree add -f %s HEAD' % wt2)
+        a = sh('git -C %s apply %s' % (wt2, patch))
+        try:
+            if a.returncode != 0:
+                print('patch does not apply', a.stdout)
+                return 2
+            for p in props:
+                t0 = time.time()
+                r = sh('PARMCB_REPO=%s %s/check %s --tier %s' % (wt2, VERIF, p, tier), timeout=7200)
+                lines = [l for l in r.stdout.splitlines() if l.startswith(('VIOLATION', 'KNOWN-FINDING', 'OK ', 'ENGINE-FAULT'))]
+                result['checks'][p] = {'exit': r.returncode, 'caught': r.returncode == 1, 'wall_s': round(time.time() - t0, 1), 'lines': lines[:6],
+                                       'how': 'scratch worktree of /repo HEAD with the patch applied, PARMCB_REPO=' + wt2}
+                print(p, 'exit', r.returncode, lines[:3])
+        finally:
+            sh('git -C /repo worktree remove --force %s' % wt2)
+        return finish(seed_dir, name, meta, result, tier, skip_confirm)
     # run the checks against /repo with the patch applied
     st = sh('git -C /repo status --porcelain --untracked-files=no')
     if st.stdout.strip():
@@ -67,29 +114,7 @@ def main():
             print(p, 'exit', r.returncode, lines[:3])
     finally:
         sh('git -C /repo checkout -- .')
-    out = os.path.join(VERIF, 'seeded', name)
-    os.makedirs(out, exist_ok=True)
-    for f in os.listdir(seed_dir):
-        if os.path.isfile(os.path.join(seed_dir, f)) and not f.startswith('demo_bin') and os.path.getsize(os.path.join(seed_dir, f)) < 200000 and not os.access(os.path.join(seed_dir, f), os.X_OK) or f == 'run.sh':
-            shutil.copy(os.path.join(seed_dir, f), os.path.join(out, f))
-    prev = {}
-    if os.path.exists(os.path.join(out, 'meta.json')):
-        try:
-            prev = json.load(open(os.path.join(out, 'meta.json')))
-        except Exception:
-            prev = {}
-    if skip_confirm and prev.get('confirmed_by_me'):
-        result['confirmed'] = prev['confirmed_by_me']
-    if prev.get('checks_with_patch_applied'):
-        hist = prev.get('earlier_runs', [])
-        hist.append(prev['checks_with_patch_applied'])
-        meta['earlier_runs'] = hist
-    meta_out = dict(meta)
-    meta_out.update({'breaks_property': meta.get('property'), 'needs_to_manifest': meta.get('needs'),
-                     'what_i_ran': 'lib/seedtest.py: scratch worktree confirmation + ./check <props> --tier %s with the patch applied to /repo (undone afterwards)' % tier,
-                     'confirmed_by_me': result['confirmed'], 'checks_with_patch_applied': result['checks']})
-    json.dump(meta_out, open(os.path.join(out, 'meta.json'), 'w'), indent=1)
-    return 0
+    return finish(seed_dir, name, meta, result, tier, skip_confirm)
 
 
 if __name__ == '__main__':
